@@ -45,14 +45,15 @@ RULE = ("random application scripts: status code and reason (bytes 0..255 weight
         "setHeader/addRawHeader/setRawHeaders with str or bytes names (valid tokens and invalid ones) and values (bytes 0..255, "
         "arbitrary code points, CR, LF, CRLF+forged header, CRLFCRLF+forged body), 0-3 cookies with every attribute, ETag, "
         "Last-Modified, 0-6 writes of 0..70 KiB, optional correct Content-Length; GET/HEAD/POST x HTTP/1.0/1.1 x Connection: "
-        "close; 1-2 requests per connection.  A case is distinct by (requests, scripts); non-trivial = at least one header, "
+        "close, POSTs optionally with Expect: 100-continue; 1-3 requests per connection (keep-alive after HEAD/204/304/100).  A case is distinct by (requests, scripts); non-trivial = at least one header, "
         "cookie, reason or body byte was set.")
 ASSUMPTIONS = ["trusted base: refhttp.read_response / decode_chunked and h11 0.16 as independent parsers",
                "header names are compared case-insensitively, values modulo leading/trailing SP/HTAB (RFC 9110 5.5)"]
 SHARDS = {"quick": 4, "thorough": 16}
 FLOORS = {"responses_checked": 3000, "header_values_compared": 3000, "values_with_linebreaks": 500, "cookie_lines_compared": 500,
           "invalid_names_refused": 200, "chunked_bodies_decoded": 500, "cl_bodies_checked": 200, "close_delimited_bodies_checked": 100,
-          "no_body_responses_checked": 300, "h11_responses_compared": 500, "reasons_with_linebreaks": 100}
+          "no_body_responses_checked": 300, "h11_responses_compared": 500, "reasons_with_linebreaks": 100,
+          "interim_100_skipped": 300, "responses_after_bodiless_or_100_on_same_connection": 500}
 READY = True
 
 _LB = re.compile(rb"\r\n|\r|\n")
@@ -171,14 +172,16 @@ def gen_script(rng, method):
 
 
 def gen_case(rng):
-    n = 2 if rng.random() < 0.2 else 1
+    r = rng.random()
+    n = 3 if r < 0.08 else 2 if r < 0.3 else 1  # keep-alive after HEAD / 204 / 304 / 100-continue must not disturb the next response
     reqs = []
     for j in range(n):
         last = j == n - 1
         method = rng.choice(["GET", "GET", "GET", "HEAD", "POST"])
         version = "1.0" if last and rng.random() < 0.25 else "1.1"
         close = last and version == "1.1" and rng.random() < 0.15
-        reqs.append({"method": method, "version": version, "close": close, "script": gen_script(rng, method)})
+        expect = method == "POST" and version == "1.1" and rng.random() < 0.4
+        reqs.append({"method": method, "version": version, "close": close, "expect": expect, "script": gen_script(rng, method)})
     return reqs
 
 
@@ -188,6 +191,8 @@ def request_bytes(reqs):
         out += ("%s /q%d HTTP/%s\r\nHost: h\r\n" % (r["method"], j, r["version"])).encode()
         if r["close"]:
             out += b"Connection: close\r\n"
+        if r.get("expect"):
+            out += b"Expect: 100-continue\r\n"
         if r["method"] == "POST":
             out += b"Content-Length: 3\r\n\r\nabc"
         else:
@@ -489,6 +494,14 @@ def check_case(ctx, reqs, case_index=None, sync_close=False):
         starts = []
         if not problems:
             for j, (rq, m) in enumerate(zip(reqs, models)):
+                if rq.get("expect"):
+                    # an interim 100 response may precede the final response of a request that asked for it (and only of such a request)
+                    interim = b"HTTP/1.1 100 Continue\r\n\r\n"
+                    while out[pos:].startswith(interim):
+                        pos += len(interim)
+                        ctx.count("interim_100_skipped")
+                if j > 0 and (reqs[j - 1]["method"] == "HEAD" or models[j - 1].code in (204, 304) or reqs[j - 1].get("expect")):
+                    ctx.count("responses_after_bodiless_or_100_on_same_connection")
                 starts.append(pos)
                 probs, pos = check_response(ctx, out, pos, rq, m, j == len(reqs) - 1, closed)
                 problems += [(k, w, dict(d, request_index=j)) for k, w, d in probs]
